@@ -59,6 +59,8 @@ PROPS = {
                 profile=Profile(iters=1.0, imm_reads=["iter", "iterate", "irange", "irangeinc"],
                                 imm_reads_per_version=(1, 5), check_all_versions=0.1, big=0.1),
                 title="iterator contract"),
+    "C10": dict(kind="v1hist", quick_n=1200, thorough_n=6000, gen="c10", oracle=proof_oracle,
+                profile=None, title="export/import fidelity, total importer"),
     "C14": dict(kind="v1hist", quick_n=1500, thorough_n=4000,
                 profile=Profile(meta_per_version=(2, 5), p_load_old=0.25, p_prune=0.3, p_reopen=0.25,
                                 check_all_versions=0.2, p_noop_version=0.35),
@@ -81,7 +83,7 @@ SIGNATURES = {
 
 def match_known(prop, lines, d):
     for k in C.load_known():
-        if k.get("status") != "open" or prop not in k.get("properties", []):
+        if k.get("status") != "open" or not (prop in k.get("properties", []) or "*" in k.get("properties", [])):
             continue
         f = SIGNATURES.get(k.get("signature"))
         if f and f(lines, d):
@@ -141,7 +143,10 @@ def run_check(prop, tier, seed, n_override=None):
                 return 1
         proof_broken = broken is not None or proof["obligations"] != proof["discharged"] or bool(proof["grep_gate"])
         n = n_override or (cfg["thorough_n"] if (tier == "thorough" or proof_broken) else cfg["quick_n"])
-        hists = corpus(prop) + v1gen.generate(seed, n, cfg["profile"])
+        if cfg.get("gen") == "c10":
+            hists = corpus(prop) + v1gen.gen_c10(seed, n)
+        else:
+            hists = corpus(prop) + v1gen.generate(seed, n, cfg["profile"])
         results = C.run_parallel(hists, work)
         oracle = cfg.get("oracle")
         ops = 0
